@@ -97,7 +97,9 @@ type Coin struct {
 }
 
 // DepositFee is the fee an account->confidential transfer of `amount` must pay.
-func DepositFee(amount *big.Int) *big.Int { return Fee(types.CalNewAmountGas(amount, types.EverLiankeFee)) }
+func DepositFee(amount *big.Int) *big.Int {
+	return Fee(types.CalNewAmountGas(amount, types.EverLiankeFee))
+}
 
 // Deposit builds a signed account->confidential transaction paying `amount` to each
 // destination wallet (native coin) with the given fee; it returns the coins created.
